@@ -265,6 +265,10 @@ LAYOUTS: List[Layout] = [
     Layout('tabs', sp='\t', eq_sp='\t'),
     Layout('wrapped_wide', wrap_rhs=True, sp='  ', inner_index=' ', comment='c'),
     Layout('unary_space', unary_sp=' ', explicit_zero=True),
+    # inside the parentheses of a wrapped right-hand side a line may break anywhere: between a function name and its
+    # bracket, just inside brackets, after commas (seeded change C14_r4mut2)
+    Layout('wrapped_calls', wrap_rhs=True, call_space='\n      ', paren_sp='\n  ', comma=',\n    '),
+    Layout('wrapped_calls_commented', wrap_rhs=True, call_space='  \n\t', comment='log (x'),
 ]
 
 
